@@ -31,6 +31,7 @@ def check(run):
     run.attempt(exclprov, run, p)
     run.attempt(cleanset, run, p)
     run.attempt(deadattr, run, p)
+    run.attempt(filekind, run, p)
     # the generated test looks at the files the command wrote: every path expression written into the script denotes the original
     # path (else the test fails with nothing changed, and the real output is never compared)
     from .common import shared_rule
@@ -449,3 +450,57 @@ def cleanset(run, p):
         x.value for x in ast.walk(rp.node) if isinstance(x, ast.Constant) and isinstance(x.value, str))
     run.ob('C12-CLEANSET', 'wiring', ok2, 'generated_files_var renders generated_file_paths(); the remove slot iterates cls.generated_files', fn=gv, nontrivial=False)
     run.floor('C12-CLEANSET', 2, 2)
+
+
+def filekind(run, p):
+    """which kind of assertion a file gets follows from its extension however it is capitalised"""
+    from ..pyeval import Interp, Obj, Model, Unsupported, Raised, pure_os
+    run.rule('C12-FILEKIND', 'a binary file is compared as bytes: FileType, evaluated on file names whose extension is written in lower '
+                             'case, upper case and mixed case (.png .PNG .Png ...), with a detector stand-in that would call anything '
+                             'text, classifies every spelling like the lower-case one - an image that is taken for text is compared '
+                             'line by line with universal newlines, where CR / LF changes and a lost final newline go unnoticed')
+    c = p.cls('FileType')
+    f = c.methods['__init__']
+
+    class _Detector(Model):
+        done = True
+        result = {'confidence': 0.99, 'encoding': 'ascii'}
+
+        def feed(self, line):
+            return None
+
+        def close(self):
+            return None
+
+    class _Chardet(Model):
+        UniversalDetector = _Detector
+
+    def fake_open(path, mode='r', **kw):
+        return iter([b'x\n'])
+    fake_open._pyeval_model = True
+
+    def kind_of(name):
+        o = Obj(c)
+        I = Interp(p)
+        I.extra_names.update({'os': pure_os(), 'chardet': _Chardet(), 'open': fake_open})
+        try:
+            I.call(f, ['/w/' + name], {}, selfobj=o)
+        except Unsupported as e:
+            raise AnalysisError('FileType is not evaluable: %s' % e)
+        except Raised as e:
+            return 'raises %s' % e
+        return (bool(o.attrs.get('binary')), bool(o.attrs.get('text')), bool(o.attrs.get('image')))
+    n = 0
+    for ext in ('png', 'jpg', 'jpeg', 'gif', 'pdf', 'svg', 'csv', 'txt', 'dat'):
+        base = kind_of('chart.' + ext)
+        for sp in (ext.upper(), ext.capitalize(), ext[0] + ext[1:].upper()):
+            got = kind_of('chart.' + sp)
+            n += 1
+            run.ob('C12-FILEKIND', 'ext=%s' % sp, got == base,
+                   'chart.%s is classified (binary, text, image) = %s, chart.%s = %s' % (sp, got, ext, base), fn=f)
+    for ext in ('png', 'jpg', 'gif'):
+        base = kind_of('chart.' + ext)
+        n += 1
+        run.ob('C12-FILEKIND', 'ext=%s:binary' % ext, base == (True, False, True) or (isinstance(base, tuple) and base[0] and not base[1]),
+               'chart.%s is classified (binary, text, image) = %s' % (ext, base), fn=f)
+    run.floor('C12-FILEKIND', n, 28)
